@@ -118,7 +118,7 @@ mod vharness {
     fn tag_of(t: &ThunkData<'_>) -> u8 { match *t.state() { ThunkState::Done(_) => 0, ThunkState::Pending(_) => 1, ThunkState::InProgress => 4 } }
     fn is_pending_tag(tag: u8) -> bool { tag >= 1 && tag <= 3 }
 
-    //@harness props=C04,C01 strength=proof clause="thunk state machine, for a thunk in ANY state: switch_state hands out the pending computation exactly when the thunk was Pending and then marks it InProgress; a Done thunk returns its stored value and stays Done; an InProgress thunk reports InProgress and stays so; get_value is Some(v) exactly for Done(v)"
+    //@harness props=C04,C01 quickfor=C04,C10 strength=proof clause="thunk state machine, for a thunk in ANY state: switch_state hands out the pending computation exactly when the thunk was Pending and then marks it InProgress; a Done thunk returns its stored value and stays Done; an InProgress thunk reports InProgress and stays so; get_value is Some(v) exactly for Done(v)"
     #[kani::proof]
     #[kani::unwind(6)]
     fn thunk_switch_state_contract() {
@@ -134,7 +134,7 @@ mod vharness {
         assert!(!matches!(again, ThunkState::Pending(_)), "C04:evalcore:computation-is-handed-out-at-most-once");
     }
 
-    //@harness props=C04,C01 strength=proof clause="set_done on an InProgress thunk stores exactly the given value; afterwards every read (get_value, switch_state, state) yields that value and nothing is pending"
+    //@harness props=C04,C01 quickfor=C04,C10 strength=proof clause="set_done on an InProgress thunk stores exactly the given value; afterwards every read (get_value, switch_state, state) yields that value and nothing is pending"
     #[kani::proof]
     #[kani::unwind(6)]
     fn thunk_set_done_contract() {
@@ -162,7 +162,7 @@ mod vharness {
         w
     }
 
-    //@harness props=C04,C10,C01 strength=proof clause="DoThunk arm, thunk in ANY state: Done => exactly its value is pushed, no work scheduled (evaluated at most once); Pending => the thunk becomes InProgress, GotThunk(this thunk) is scheduled BELOW the work that computes it, at least one work item is scheduled, no value pushed yet; InProgress => InfiniteRecursion error. In every case the trace-length counter moves exactly as the pushed trace items do (invariant T), and a thunk forced from within the arm (the inherited field of a `+:` field) is scheduled together with one counted trace frame (thunk chains are bounded by the frame limit)" replay=thunk_chain timeout=900
+    //@harness props=C04,C10,C01 quickfor=C04,C10 strength=proof clause="DoThunk arm, thunk in ANY state: Done => exactly its value is pushed, no work scheduled (evaluated at most once); Pending => the thunk becomes InProgress, GotThunk(this thunk) is scheduled BELOW the work that computes it, at least one work item is scheduled, no value pushed yet; InProgress => InfiniteRecursion error. In every case the trace-length counter moves exactly as the pushed trace items do (invariant T), and a thunk forced from within the arm (the inherited field of a `+:` field) is scheduled together with one counted trace frame (thunk chains are bounded by the frame limit)" replay=thunk_chain timeout=900
     #[kani::proof]
     #[kani::unwind(6)]
     fn do_thunk_arm_contract() {
@@ -194,7 +194,7 @@ mod vharness {
         }
     }
 
-    //@harness props=C04,C01 strength=proof clause="GotThunk arm: requires an InProgress thunk and a value on the stack; stores exactly that value, leaves it on the stack, schedules nothing"
+    //@harness props=C04,C01 quickfor=C04,C10 strength=proof clause="GotThunk arm: requires an InProgress thunk and a value on the stack; stores exactly that value, leaves it on the stack, schedules nothing"
     #[kani::proof]
     #[kani::unwind(6)]
     fn got_thunk_arm_contract() {
@@ -212,7 +212,7 @@ mod vharness {
         assert!(e.state_stack.is_empty(), "C04:evalcore:got-thunk-schedules-nothing");
     }
 
-    //@harness props=C10,C01 strength=proof clause="invariant T (stack_trace_len == #TraceItem - #DelayedTraceItem on the state stack) is preserved by each of the four primitives that touch either side: push_trace_item, delay_trace_item, popping a TraceItem, popping a DelayedTraceItem; under T the counter never underflows (dec_trace_len's unwrap cannot fail)"
+    //@harness props=C10,C01 quickfor=C04,C10 strength=proof clause="invariant T (stack_trace_len == #TraceItem - #DelayedTraceItem on the state stack) is preserved by each of the four primitives that touch either side: push_trace_item, delay_trace_item, popping a TraceItem, popping a DelayedTraceItem; under T the counter never underflows (dec_trace_len's unwrap cannot fail)"
     #[kani::proof]
     #[kani::unwind(6)]
     fn trace_len_invariant_step() {
